@@ -3,11 +3,11 @@
 package b
 
 import (
-	"time"
 	"encoding/json"
 	"fmt"
 	"os"
 	"strings"
+	"time"
 
 	"verif/explore"
 
